@@ -1958,7 +1958,13 @@ def randint(low, high=None, size=None, generator=None, device=None, dtype=None, 
         low = low.item()
     if isinstance(high, Tensor):
         high = high.item()
-    return _fresh_tensor("randint", _shape_args((size,)), dtype or int64, low, high)
+    t = _fresh_tensor("randint", _shape_args((size,)), dtype or int64, low, high)
+    if RANDINT_HOOK is not None:
+        t = RANDINT_HOOK(t, low, high)
+    return t
+
+
+RANDINT_HOOK = None  # harness hook, e.g. case-split a small-range draw that later appears as a divisor
 
 
 def randperm(n, generator=None, device=None, **k):
